@@ -98,6 +98,7 @@ func Open(path string, opts *Options) (*DB, error) {
 		if err != nil {
 			return nil, err
 		}
+		seed = verifHashSeed(seed)
 		db.hashSeed = seed
 	} else {
 		if err := db.readMeta(); err != nil {
@@ -106,6 +107,7 @@ func Open(path string, opts *Options) (*DB, error) {
 	}
 
 	if acquiredExistingLock {
+		verifEvent(db, "recover")
 		if err := db.recover(); err != nil {
 			return nil, errors.Wrap(err, "recovering")
 		}
